@@ -82,6 +82,22 @@ class _Loader(importlib.machinery.SourceFileLoader):
     def source_to_code(self, data, path, *, _optimize=-1):
         tree = ast.parse(data, filename=path)
         tree = _Rewriter().visit(tree)
+        # ``import re`` (module level)  ->  import re; re = __sym_re__(re)
+        body = []
+        for node in tree.body:
+            body.append(node)
+            if isinstance(node, ast.Import):
+                for al in node.names:
+                    if al.name == 're':
+                        nm = al.asname or 're'
+                        body.append(ast.copy_location(ast.Assign(
+                            targets=[ast.Name(id=nm, ctx=ast.Store())],
+                            value=ast.Call(
+                                func=ast.Name(id='__sym_re__',
+                                              ctx=ast.Load()),
+                                args=[ast.Name(id=nm, ctx=ast.Load())],
+                                keywords=[])), node))
+        tree.body = body
         ast.fix_missing_locations(tree)
         return compile(tree, path, 'exec', dont_inherit=True,
                        optimize=_optimize)
@@ -93,6 +109,8 @@ class _Loader(importlib.machinery.SourceFileLoader):
         d['__sym_format__'] = proxies.sym_format
         d['__sym_fstring__'] = proxies.sym_fstring
         d['str'] = proxies.StrShim
+        from pysym import shims as _shims
+        d['__sym_re__'] = _shims.wrap_re
         REWRITTEN.append(module.__name__)
         super().exec_module(module)
 
